@@ -78,7 +78,8 @@ def fill(meta, btext):
 
 HANDLED = {'Debug': ('Debug(ignore)', 'Debug(method(fmt_any))'), 'PartialEq': ('PartialEq(ignore)', 'PartialEq(method(eq_any))'), 'PartialEq+Eq': ('Eq(ignore)', 'PartialEq(method(eq_any))'),
            'Hash': ('Hash(ignore)', 'Hash(method(hash_any))'), 'PartialOrd': ('PartialOrd(method(pcmp_any))', 'PartialOrd(ignore)'), 'Ord': ('Ord(ignore)', 'Ord(method(cmp_any))'),
-           'PartialOrd+Ord': ('PartialOrd(ignore)', 'Ord(method(cmp_any))'), 'Clone': ('Clone(method(clone_any))', 'Clone(method(clone_any))')}
+           'PartialOrd+Ord': ('PartialOrd(ignore)', 'Ord(method(cmp_any))'), 'Clone': ('Clone(method(clone_any))', 'Clone(method(clone_any))'),
+           'Copy+Clone': ('Clone(method(clone_any))', 'Clone(method(clone_any))')}
 
 
 def item_text(kind, ctx, wh, metas, markers, markers1=''):
@@ -120,7 +121,7 @@ def generate(tier):
                         yield (kind, ctx, wh, rid, impls, mode, item_text(kind, ctx, wh, ms, markers, markers1))
                         # the same request with every field ignored or handled by a method: explicit bounds must still be honoured,
                         # automatic bounds shrink to the supertraits
-                        if rid in HANDLED and kind != 'union' and wh[0] != 'w2':
+                        if rid in HANDLED and kind != 'union' and wh[0] != 'w2' and (rid != 'Copy+Clone' or kind == 'enum'):
                             h0, h1 = HANDLED[rid]
                             yield (kind, ctx, wh, rid + '/handled', impls, mode, item_text(kind, ctx, wh, ms, '#[educe(%s)] ' % h0, ('#[educe(%s)] ' % h1) if kind != 'enum' else ''))
 
@@ -173,6 +174,8 @@ def check(v, tier, only=None):
             problems.append('expected impls of %s, found %s' % (sorted(s[0] for s in impls), sorted(i['tr'] for i in items)))
         for spec in impls:
             tr, btrait, supers, follows = spec
+            if rid == 'Copy+Clone/handled' and tr == P['Clone']:
+                btrait = P['Clone']          # with a custom clone method the enum's Clone is field by field: the bound trait is Clone
             for it in [i for i in items if i['tr'] == tr]:
                 v.cov['evaluations'] += 1
                 if it['gen'] != want_gen:
@@ -200,6 +203,8 @@ def check(v, tier, only=None):
                     ftys = ctx[5] if kind != 'enum' else [ctx[5][0], ctx[5][1], 'u8']
                     if rid.endswith('/handled'):
                         ftys = ['u8'] if kind == 'enum' else []
+                        if rid == 'Copy+Clone/handled' and tr == P['Copy']:
+                            ftys = [ctx[5][0], ctx[5][1], 'u8']
                     if rid in ('Into', 'Into2'):
                         # struct: the marked field; enum: V0's sole field and V1's marked field
                         first = tr.endswith('< u64 >')
